@@ -225,10 +225,12 @@ struct CliResult {
     violation: Option<Violation>,
     machinery: Option<String>,
     outputs: BTreeSet<String>,
+    /// the remaining budget ran out while `veryl test` was running (counted as not run)
+    timed_out: bool,
 }
 
-fn cli_order(p: &MultiTop, order: &[usize], backend: &str, root: &std::path::Path) -> CliResult {
-    let mut res = CliResult { runs: 0, tests: 0, violation: None, machinery: None, outputs: BTreeSet::new() };
+fn cli_order(p: &MultiTop, order: &[usize], backend: &str, root: &std::path::Path, deadline: std::time::Instant) -> CliResult {
+    let mut res = CliResult { runs: 0, tests: 0, violation: None, machinery: None, outputs: BTreeSet::new(), timed_out: false };
     let veryl = bin_dir().join("veryl");
     let mut reports = vec![];
     for reuse in ["0", "1"] {
@@ -245,8 +247,12 @@ fn cli_order(p: &MultiTop, order: &[usize], backend: &str, root: &std::path::Pat
             std::path::Path::new("/usr/bin/taskset"),
             &["-c", "0", veryl.to_str().unwrap(), "test", "--format", "json", "--backend", backend, "--seed", "1"],
             &[("VERYL_DUT_REUSE", reuse), ("VERYL_DUT_REUSE_MIN_BYTES", "0"), ("VERYL_AOT_C_ASYNC", "0")],
-            std::time::Duration::from_secs(300),
+            deadline.saturating_duration_since(std::time::Instant::now()).max(std::time::Duration::from_secs(3)),
         );
+        if out.timed_out {
+            res.timed_out = true;
+            return res;
+        }
         res.runs += 1;
         match parse_report(&out.stdout) {
             Some(m) => reports.push((reuse, m, out)),
@@ -301,6 +307,59 @@ pub fn run(ctx: &Ctx) -> Report {
     let max_len = 4;
     let seqs = all_sequences(4, max_len);
 
+    // ---- (b) CLI leg -----------------------------------------------------------------------------
+    let orders = permutations(4);
+    let backends: Vec<&str> = if thorough { vec!["cranelift", "interpret", "cc"] } else { vec!["cranelift"] };
+    let mut cli_jobs: Vec<(usize, Vec<usize>, &str)> = vec![];
+    for (pi, _) in projects.iter().enumerate() {
+        for b in &backends {
+            for (oi, o) in orders.iter().enumerate() {
+                // quick: 6 of the 24 orders per project (each test first at least once)
+                if !thorough && oi % 4 != (pi % 4) {
+                    continue;
+                }
+                cli_jobs.push((pi, o.clone(), b));
+            }
+        }
+    }
+    // The CLI leg runs FIRST and is capped by its share of the budget: orders are launched in
+    // small batches (priority = list order) and no batch starts after the cap; a `veryl test`
+    // still running at the cap is killed and counted as not run.
+    let cli_cap = budget * 0.35;
+    let cli_deadline = ctx.start + std::time::Duration::from_secs_f64(cli_cap);
+    let mut cli_results: Vec<Option<CliResult>> = vec![];
+    for batch in cli_jobs.chunks(4) {
+        if ctx.elapsed() > cli_cap {
+            cli_results.extend(batch.iter().map(|_| None));
+            continue;
+        }
+        cli_results.extend(par_map(batch, |(pi, order, backend)| {
+            let root = scratch.join(format!("cli-{pi}-{backend}-{}", order.iter().map(|x| x.to_string()).collect::<String>()));
+            let r = cli_order(&projects[*pi], order, backend, &root, cli_deadline);
+            if r.timed_out { None } else { Some(r) }
+        }));
+    }
+    let (mut cli_runs, mut cli_tests, mut cli_not_run) = (0u64, 0u64, 0u64);
+    let mut cli_sigs: BTreeSet<String> = BTreeSet::new();
+    let mut cli_outputs: BTreeSet<String> = BTreeSet::new();
+    for r in cli_results {
+        let Some(r) = r else {
+            cli_not_run += 1;
+            continue;
+        };
+        cli_runs += r.runs;
+        cli_tests += r.tests;
+        cli_outputs.extend(r.outputs);
+        if let Some(m) = r.machinery {
+            rep.machinery(m);
+        }
+        if let Some(v) = r.violation {
+            if cli_sigs.insert(v.signature.clone()) {
+                rep.violation(v);
+            }
+        }
+    }
+
     // ---- (a) library leg -------------------------------------------------------------------------
     let mut jobs: Vec<SeqJob> = vec![];
     let configs: Vec<(&'static str, bool)> = if thorough {
@@ -325,7 +384,7 @@ pub fn run(ctx: &Ctx) -> Report {
     let bounds = Bounds { max_states: 1 << 12, flat_len: 2, batch: 4096, ..Default::default() };
     let t0 = std::time::Instant::now();
     let start = ctx.elapsed();
-    let lib_budget = budget * 0.7;
+    let lib_budget = budget;
     let results = par_map(&jobs, |j| {
         if start + t0.elapsed().as_secs_f64() > lib_budget {
             return SeqResult { stats: Stats::default(), violation: None, machinery: None, not_run: true, shape_equal: false };
@@ -374,50 +433,6 @@ pub fn run(ctx: &Ctx) -> Report {
         if done % 211 == 1 {
             rep.sample(json!({"project": projects[j.project].id, "sequence": j.seq, "config": j.config, "dut_reuse": j.dut_reuse,
                 "states": r.stats.states, "transitions": r.stats.transitions}));
-        }
-    }
-
-    // ---- (b) CLI leg -----------------------------------------------------------------------------
-    let orders = permutations(4);
-    let backends: Vec<&str> = if thorough { vec!["cranelift", "interpret", "cc"] } else { vec!["cranelift"] };
-    let mut cli_jobs: Vec<(usize, Vec<usize>, &str)> = vec![];
-    for (pi, _) in projects.iter().enumerate() {
-        for b in &backends {
-            for (oi, o) in orders.iter().enumerate() {
-                // quick: 6 of the 24 orders per project (each test first at least once)
-                if !thorough && oi % 4 != (pi % 4) {
-                    continue;
-                }
-                cli_jobs.push((pi, o.clone(), b));
-            }
-        }
-    }
-    let t1 = std::time::Instant::now();
-    let start1 = ctx.elapsed();
-    let cli_results = par_map(&cli_jobs, |(pi, order, backend)| {
-        if start1 + t1.elapsed().as_secs_f64() > budget {
-            return None;
-        }
-        let root = scratch.join(format!("cli-{pi}-{backend}-{}", order.iter().map(|x| x.to_string()).collect::<String>()));
-        Some(cli_order(&projects[*pi], order, backend, &root))
-    });
-    let (mut cli_runs, mut cli_tests, mut cli_not_run) = (0u64, 0u64, 0u64);
-    let mut cli_outputs: BTreeSet<String> = BTreeSet::new();
-    for r in cli_results {
-        let Some(r) = r else {
-            cli_not_run += 1;
-            continue;
-        };
-        cli_runs += r.runs;
-        cli_tests += r.tests;
-        cli_outputs.extend(r.outputs);
-        if let Some(m) = r.machinery {
-            rep.machinery(m);
-        }
-        if let Some(v) = r.violation {
-            if sigs.insert(v.signature.clone()) {
-                rep.violation(v);
-            }
         }
     }
 
